@@ -255,7 +255,7 @@ FORMS = (("forward", "*"), ("forward", "cigar"), ("reversed", "*"),
          ("reversed", "cigar"))
 
 
-def path_line(link, form):
+def path_line(link, form, name="p"):
   f, fo, t, to, ov = link
   direction, ovk = form
   if direction == "forward":
@@ -264,7 +264,7 @@ def path_line(link, form):
     steps, o = [(t, R.INV[to]), (f, R.INV[fo])], R.cigar_complement(ov)
   if ovk == "*":
     o = "*"
-  return T(["P", "p", ",".join(n + x for n, x in steps), o]), steps, o
+  return T(["P", name, ",".join(n + x for n, x in steps), o]), steps, o
 
 
 def allowed_orients(stored, steps, pov):
@@ -378,6 +378,118 @@ def judge_order(link, form, perm):
   check_stored(g, segl + [R.link_text(stored)], chk, "after all arrivals")
   check_path(g, "p", steps, [stored], [pov], chk, "after all arrivals")
   return out, sorted(str(x) for x in g.lines)
+
+
+# ---------------------------------------------------------------------------
+# two paths walking ONE link in opposite directions, the link written in
+# either form, all arrival orders (a placeholder for the link is created by
+# the first path, re-used backwards by the second, replaced by the real link);
+# and the complement of the stored link taken after every arrival
+# ---------------------------------------------------------------------------
+
+TWO_CIGARS = ("*", "1M1I", "2M1D1M")
+SEGV = {"A": ["S\tA\t*", "S\tA\tACGTACGTAC\tRC:i:20"],
+        "B": ["S\tB\t*", "S\tB\t*\tLN:i:12"], "C": ["S\tC\t*"]}
+
+
+def two_cases():
+  for link in links(TWO_CIGARS):
+    for written in ("direct", "complement"):
+      for segv in (0, 1):
+        for ovk in (("cigar", "*") if link[4] != "*" else ("*",)):
+          yield {"mode": "twopaths", "link": list(link), "written": written,
+                 "segv": segv, "ovk": ovk}
+
+
+def two_doc(case):
+  link = tuple(case["link"])
+  stored = link if case["written"] == "direct" else R.link_complement(link)
+  pl, psteps, pov = path_line(link, ("forward", case["ovk"]), "p")
+  ql, qsteps, qov = path_line(link, ("reversed", case["ovk"]), "q")
+  doc = {"L": R.link_text(stored), "P": pl, "Q": ql}
+  for n in sorted(set((link[0], link[2]))):
+    doc["S" + n] = SEGV[n][case["segv"]]
+  return doc, stored, (psteps, pov), (qsteps, qov)
+
+
+def judge_two(case, perm):
+  out = []
+
+  def chk(clause, field, exp, obs):
+    if exp != obs:
+      out.append((clause, field, exp, obs))
+  doc, stored, (psteps, pov), (qsteps, qov) = two_doc(case)
+  g = gfapy.Gfa(version="gfa1")
+  snaps = []
+  for i, k in enumerate(perm):
+    r = _try(lambda: g.add_line(doc[k]))
+    if isinstance(r, str):
+      chk("arrival-refused", "add_line({})".format(k), None, r)
+      return out, None
+    real = [l for l in g.dovetails if not l.virtual]
+    if real:
+      c = _try(lambda: real[0].complement())
+      snaps.append((i + 1, c))
+  segl = [doc[k] for k in sorted(doc) if k.startswith("S")]
+  check_stored(g, segl + [R.link_text(stored)], chk, "after all arrivals")
+  check_path(g, "p", psteps, [stored], [pov], chk, "after all arrivals")
+  check_path(g, "q", qsteps, [stored], [qov], chk, "after all arrivals")
+  # complements taken on the way are the same edge as the stored link
+  real = [l for l in g.dovetails if not l.virtual]
+  ctext = R.link_text(R.link_complement(stored))
+  selfc = (ctext == R.link_text(stored))
+  for i, c in snaps:
+    what = "complement taken after arrival {}".format(i)
+    if isinstance(c, str):
+      chk("complement-raises", what, None, c)
+      continue
+    chk("complement-text", what, ctext.split("\t")[:6], str(c).split("\t")[:6])
+    if len(real) == 1:
+      link = real[0]
+      chk("complement-equivalence", what + ": is_complement both ways",
+          (True, True), (_try(lambda: link.is_complement(c)),
+                         _try(lambda: c.is_complement(link))))
+      chk("complement-equivalence", what + ": is_eql both ways",
+          (True, True), (_try(lambda: link.is_eql(c)),
+                         _try(lambda: c.is_eql(link))))
+      cc = _try(lambda: c.complement())
+      if not isinstance(cc, str):
+        chk("complement-involution", what + ": complement of it is_same",
+            (True, True), (_try(lambda: cc.is_same(link)),
+                           _try(lambda: link.is_same(cc))))
+  if snaps and not isinstance(snaps[0][1], str) and not selfc:
+    before = sorted(str(x) for x in g.lines)
+    r = _try(lambda: g.add_line(snaps[0][1]))
+    chk("complement-added", "adding the first complement taken", None,
+        r if isinstance(r, str) else None)
+    chk("complement-added", "lines after adding it", before,
+        sorted(str(x) for x in g.lines))
+  return out, sorted(str(x) for x in g.lines)
+
+
+def work_two(chunk):
+  res = new_result()
+  for case in chunk:
+    doc = two_doc(case)[0]
+    keys = sorted(doc)
+    for perm in itertools.permutations(keys):
+      probs, st = _guarded(judge_two, case, list(perm))
+      res["evaluations"] += 1
+      res["traces"] += 1
+      res["transitions"] += len(perm) + 1
+      if st is not None:
+        res["states"].add(h(["two", st]))
+        res["outcomes"].add("twopaths:first={}".format(perm[0]))
+        res["nontrivial"].add(h(["two", case, list(perm)]))
+      if probs:
+        w = dict(case)
+        w["perm"] = list(perm)
+        res["violations"].extend(mk(
+            "twopaths", tuple(case["link"]), probs, w,
+            extra=[doc[k] for k in perm],
+            more={"written": case["written"], "order": " ".join(perm),
+                  "ovk": case["ovk"]}))
+  return res
 
 
 # ---------------------------------------------------------------------------
@@ -782,7 +894,16 @@ def run(ctx):
   p3 = list(p3_cases())
   merge_dedup(ctx, ctx.pmap(work_p3, list(chunks(p3, 100)), chunksize=1),
               seen, per_class, counter)
-  ctx.bound_completed = {"links": len(all_links),
+  two = list(two_cases())
+  merge_dedup(ctx, ctx.pmap(work_two, list(chunks(two, 2)), chunksize=1),
+              seen, per_class, counter)
+  ctx.alphabet["twopaths"] = {
+      "lines": ["S..", "L (direct or complement form)", "P p forwards",
+                "P q backwards"], "overlaps": list(TWO_CIGARS),
+      "segments": "bare / with sequence, LN and tags",
+      "orders": "all", "complement": "taken after every arrival"}
+  ctx.bound_completed = {"twopaths cases (x all orders)": len(two),
+                         "links": len(all_links),
                          "all-order items (link x path form)": len(items),
                          "fixed-order items": len(items2),
                          "paths3 cases": len(p3)}
@@ -811,6 +932,13 @@ def replay(w, ctx):
     probs, _ = _guarded(judge_order, link, form, perm)
     return mk("orders", link, probs, w, extra=[doc[k] for k in perm],
               more={"path": "/".join(form), "order": " ".join(perm)})
+  if mode == "twopaths":
+    probs, _ = _guarded(judge_two, w, w["perm"])
+    doc = two_doc(w)[0]
+    return mk("twopaths", tuple(w["link"]), probs, w,
+              extra=[doc[k] for k in w["perm"]],
+              more={"written": w["written"], "order": " ".join(w["perm"]),
+                    "ovk": w["ovk"]})
   probs, _ = _guarded(judge_p3, w)
   return mk("paths3", None, probs, w, extra=p3_doc(w)[0],
             more={"steps": ",".join(w["steps"]), "cigar": w["cigar"],
